@@ -141,7 +141,9 @@ Definition baseline_checks (pl : policy) (m : bmetrics) (d : list (Q * Q)) (p : 
        val_match 0 (b_pnrmse m); val_match 0 (b_pnrmse_adj m); val_match 0 (pnrmse_autocorr_adj pl m np p mn);
        val_match 1 (b_r_squared m);
        rsq_adj_match (Qmax 1 (inject_Z (n - 1) / inject_Z (b_ddof m - 1))) (b_r2 m) (b_r_squared_adj m);
-       val_match 0 (mape_trunc d mn) ].
+       (* MAPE: exact for short series, terms truncated to 2^-80 for long ones (the exact sum of quotients over
+          many different denominators is huge) *)
+       val_match 0 (if (zlen d <=? 12)%Z then mape_of d mn else mape_trunc d mn) ].
 
 Definition baseline_fields (c : bcase) : list bool :=
   let rows := mk_rows (bc_den c) (bc_rows c) in
